@@ -290,6 +290,24 @@ func c17WfRepStrings(rs []c17WfRep) []string {
 	return out
 }
 
+func c17WfSameCols(a, b []c17WfRep) bool {
+	if len(a) != len(b) {
+		return false
+	}
+	x, y := make([]int, len(a)), make([]int, len(b))
+	for i := range a {
+		x[i], y[i] = a[i].col, b[i].col
+	}
+	sort.Ints(x)
+	sort.Ints(y)
+	for i := range x {
+		if x[i] != y[i] {
+			return false
+		}
+	}
+	return true
+}
+
 func c17WfCase(c *Case, st *c17Stats) {
 	evs := c17WfGen(c.R)
 	src := c17WfRender(c.R, evs)
@@ -365,6 +383,21 @@ func c17WfCase(c *Case, st *c17Stats) {
 			return
 		}
 		got[owner] = append(got[owner], c17WfRep{d.Col, d.Msg})
+		// named-character oracle on the rule's own text, for every report
+		{
+			p := pats[owner]
+			isRef := !strings.HasPrefix(p.key, "paths")
+			if sig, what := c17ReportSig([]rune(p.pat), isRef, d.Msg, d.Col-p.content+1, len(p.pat)); sig != "" {
+				c.Logf("src:\n%s\n%s: %s", src, d.String(), what)
+				c.Violation(sig, fmt.Sprintf("through Lint (workflow), on.%s.%s pattern %q: %s", p.event, p.key, p.pat, what), det(map[string]interface{}{"pattern_index": owner, "diagnostic": d.String()}))
+			} else if named, ok := c17NamedChar(d.Msg); ok {
+				st.cnt["wf_named_char_checked"]++
+				if named == '%' {
+					st.cnt["wf_reports_naming_percent"]++
+					st.add("wf_keys_named_percent", p.key)
+				}
+			}
+		}
 	}
 	anyDue := false
 	for i, p := range pats {
@@ -388,6 +421,10 @@ func c17WfCase(c *Case, st *c17Stats) {
 		case !same && len(w) > 0 && len(g) == 0:
 			c.Logf("src:\n%s\n%s: expected %q, observed nothing", src, describe, w)
 			c.Violation("C17:wf-filter-not-validated:"+ctx, describe+": the validator reports "+fmt.Sprint(w)+" but the workflow has no glob diagnostic for it", det(map[string]interface{}{"pattern_index": i}))
+			continue
+		case !same && c17WfSameCols(got[i], want[i]):
+			c.Logf("src:\n%s\n%s: expected %q, observed %q", src, describe, w, g)
+			c.Violation("C17:wf-message-not-validator-message-plus-note", describe+": the glob diagnostics stand at the right columns but their text is not the validator's message followed by the fixed note: "+fmt.Sprint(g)+" instead of "+fmt.Sprint(w), det(map[string]interface{}{"pattern_index": i}))
 			continue
 		case !same:
 			c.Logf("src:\n%s\n%s: expected %q, observed %q", src, describe, w, g)
@@ -456,6 +493,9 @@ func c17WfFloors(r *Run) {
 		r.Inconclusive(fmt.Sprintf("coverage floor: %d generated workflows were re-interpreted by the parser (only %d linted)", sk, n))
 	}
 	for _, k := range c17FilterKeys {
+		if !r.SetHas("wf_keys_named_percent", k) {
+			r.Inconclusive("coverage floor: no glob diagnostic naming '%' (correctly, at its column) for " + k + " at rule level")
+		}
 		if !r.SetHas("wf_keys_ok_after_non_webhook", k) {
 			r.Inconclusive("coverage floor: no due and correct glob report for " + k + " in an event written after a non-webhook event")
 		}
